@@ -3,13 +3,17 @@
 REAL_CODECS = ["fileformats/*.go (STL, OFF, PLY, CSV readers and writers)", "model3d/import.go", "model3d/export.go",
                "model2d/import.go", "model2d/export.go", "model3d/triangulate.go", "Go runtime, bufio, encoding/csv"]
 
-SIM_REAL = ["model3d, model2d, numerical, render3d, toolbox3d (all library code, built with -tags verif hooks)",
+SIM_REAL = ["model3d, model2d, numerical, render3d, toolbox3d (all library code, built with -tags verif hooks)", AUTO,
             "Go runtime channels, mutexes, WaitGroups, atomic.Value, sync.Map, global math/rand"]
+AUTO = ("the library is compiled from a scratch copy of /repo's working tree (made under /verif/.build on every run) into which "
+        "harness/cmd/autoyield has inserted a scheduling point before every channel operation, WaitGroup Wait/Done, goroutine start, "
+        "sync/atomic and sync.Map operation, and lock-depth markers around every mutex critical section; nothing else differs from /repo")
 SIM_SHIM = ["github.com/unixpickle/essentials concurrency.go (same goroutine structure + scheduling points; other files verbatim)"]
 
 PROPS = {
     "C09": {
         "race": False,
+        "autoyield": True,
         "hang_is_trouble": True,
         "level": "exploration",
         "budget_s": {"quick": 30, "thorough": 1200},
@@ -17,8 +21,8 @@ PROPS = {
         "min_fields": ["tape", "sched"],
         "zero_fields": ["tape", "sched"],
         "rule": ("one case = one generated history from the choice tape. Mesh histories (3-D and 2-D): start from an empty mesh, a face soup or "
-                 "the output of a library in-place editor (MarchingCubesSearch, FlattenBase, EliminateEdges, DualContour with Repair, "
-                 "EliminateCoplanar/Decimate/EliminateColinear), then 3..42 operations from {Add new / duplicate pointer / value-equal copy / "
+                 "the output of a library in-place editor (every entry point of the marching-cubes vertex search incl. 0 and >=53 iterations, "
+                 "FlattenBase, EliminateEdges, DualContour with Repair, EliminateCoplanar/Decimate/EliminateColinear, toolbox3d RectSet.Mesh / HeightMap.Mesh), then 3..42 operations from {Add new / duplicate pointer / value-equal copy / "
                  "degenerate / previously removed, Remove present/absent/already removed, AddMesh, Copy (continue on or mutate the copy), DeepCopy, "
                  "MapCoords (injective, many-to-one, sign-of-zero sensitive), Scale/Translate/Rotate, InvertNormals (+twice, 2-D Invert), a query "
                  "that builds the lazy vertex index at that point, a burst of 2..5 simulated reader tasks}. After every operation the real mesh "
@@ -36,6 +40,7 @@ PROPS = {
     },
     "C20": {
         "race": False,
+        "autoyield": True,
         "hang_is_trouble": True,
         "level": "exploration",
         "budget_s": {"quick": 45, "thorough": 1200},
@@ -43,7 +48,7 @@ PROPS = {
         "min_fields": ["sched", "work"],
         "zero_fields": ["sched", "work"],
         "rule": ("one case = (image size 2..24, renderer in {RecursiveRayTracer(MaxDepth 0), RayCaster, BidirPathTracer}, worker count 1..32 "
-                 "(render.workers knob; more workers than pixels included), NumSamples 1..64, MinSamples 0..NumSamples, MaxStddev in {0,1e-9,0.01,0.3,1e9}, "
+                 "(render.workers knob; more workers than pixels included), NumSamples 1..64 (one case in ten: 65..2064 on a 2x2/2x3 image, batch-size boundaries included), MinSamples 0..NumSamples and beyond, MaxStddev in {0,1e-9,0.01,0.3,1e9}, "
                  "OversaturatedStddevs, custom Convergence {none, pure hash of the mean, always, never}, Antialias {0,0.5,0.9}, LogFunc set/unset, "
                  "per-pixel radiance stream {constant, alternating, heavy-tailed, settling, oversaturated}, goroutine schedule) from two choice tapes. "
                  "The scene is a stub Object that maps each primary ray back to its pixel, records (pixel, value, goroutine, sequence) and is a "
@@ -60,6 +65,7 @@ PROPS = {
     },
     "C13": {
         "race": True,
+        "autoyield": True,
         "replay_isolated": True,
         "hang_is_trouble": True,
         "level": "exploration",
@@ -73,7 +79,8 @@ PROPS = {
                  "ColliderSolid, CoordTree, Cached colour func, CacheScalarFunc) on one shared 3-D or 2-D mesh (index absent or prebuilt) "
                  "and on colliders/fields/solids derived from it; each answer must equal the same query made sequentially afterwards. "
                  "Part B: KMeans.Iterate/Assign (dyadic data: exact equality with the 1-worker run), HeightMap.AddSpheresSDF (conservation "
-                 "against the recorded spheres), OBJ builders, QuantizedTriangleColor, RayCaster/RecursiveRayTracer.Render (shared renderer), "
+                 "against the recorded spheres), OBJ builders, ToTexture over a hand-made UV map, QuantizedTriangleColor, RayCaster/RecursiveRayTracer.Render (the very same renderer value used by "
+                 "two callers; focus points shared by all workers), big-lattice dual contouring with interior points (dcbig), "
                  "and the C12 meshing/rasterising workloads. Oracles: no race report with a model3d frame, value oracle, no deadlock/livelock. "
                  "distinct_nontrivial = distinct cases with >=1 preemption; distinct_interleavings = distinct decision traces."),
         "assumptions": [
@@ -86,6 +93,7 @@ PROPS = {
     },
     "C12": {
         "race": False,
+        "autoyield": True,
         "hang_is_trouble": True,
         "level": "exploration",
         "budget_s": {"quick": 60, "thorough": 1500},
@@ -98,7 +106,8 @@ PROPS = {
                  "constants, whole-volume buffer, no filter) is compared with a variant run under the simulator with GOMAXPROCS 1..16, "
                  "random/sticky schedule, block-size knobs, DC BufferSize from the 4-row minimum up and MaxGos 0..9, filters "
                  "{always-true, analytically exact, exact+hashed extra trues}, coarse-to-fine with ratio 2..6 (kept only if the coarse mesh "
-                 "is within the documented dilation of every fine vertex), rasteriser tile sizes and cropped canvases; oracle: identical "
+                 "is within the documented dilation of every fine vertex), rasteriser tile sizes, cropped/padded canvases and closed boxes on a dyadic grid whose faces coincide with pixel and tile edges; "
+                 "one MC/DC case in 16 and the dcbig kind use lattices of 48..112 cells per axis with default constants; oracle: identical "
                  "canonical face multiset / pixel array, no deadlock or livelock. distinct_nontrivial = distinct cases with >=1 "
                  "preemption and a non-empty result; distinct_interleavings = distinct SHA-1 of the (task,site,key) decision trace."),
         "assumptions": [
@@ -113,23 +122,27 @@ PROPS = {
         "race": False,
         "level": "exploration",
         "budget_s": {"quick": 25, "thorough": 1200},
-        "max_cases": {"quick": 60000, "thorough": 0},
-        "min_fields": ["tape"],
-        "zero_fields": ["tape"],
+        "max_cases": {"quick": 72000, "thorough": 0},
+        "min_fields": ["sched", "tape"],
+        "zero_fields": ["sched", "tape"],
         "rule": ("seeded workloads, one per (seed, index): a mesh / record list / PLY header+rows / OFF or ASCII-STL text is drawn from the "
                  "choice tape (vertex pools with shared and duplicated vertices, degenerate faces, +-0, subnormals, values beyond float32, "
                  "9-digit floats; PLY headers with zero-count elements, every scalar type, list lengths at type limits, three encodings), "
                  "written through the library's writer into a simulated file, and read back through simulated readers under six legal "
                  "delivery schedules (as-asked, 1-byte, seeded fragments, fragments+zero-length reads, data+EOF, all combined); the decoded "
                  "value must equal the written one rounded to the format's precision under every schedule. OBJ/MTL/3MF are re-opened and "
-                 "re-parsed structurally. distinct_nontrivial = distinct (kind, tape) with a non-empty payload."),
+                 "re-parsed structurally. Two further kinds: encode_session (2..4 exports through the byte-returning API, all kept by the caller "
+                 "and only then read back: handed-out bytes must not change) and concurrent_export (2..4 simulated clients export their own "
+                 "meshes to their own simulated files at once under the deterministic goroutine scheduler; every Write of the slow simulated "
+                 "disk is a scheduling point; each file must be byte-identical to the one its writer produces alone). "
+                 "distinct_nontrivial = distinct (kind, tape) with a non-empty payload."),
         "assumptions": [
             "the harness's own ASCII-STL and OFF writers follow the formats' specifications",
             "CSV and 3MF go through a Mesh (a set), so their faces are compared as multisets",
             "PLY elements without properties are not generated (degenerate; zero bytes per binary row)",
         ],
         "components": {"real": REAL_CODECS + ["fileformats/wavefront_obj.go", "fileformats/3mf.go", "archive/zip, encoding/xml (re-parse)"],
-                       "stub": ["simio.Reader / simio.Writer (the simulated disk/stream)"], "shim": []},
+                       "stub": ["simio.Reader / simio.Writer (the simulated disk/stream)", "slowDisk (a simio.Writer whose Write is a scheduling point) and client tasks of the concurrent_export kind"], "shim": []},
     },
     "C16": {
         "race": False,
